@@ -10,6 +10,7 @@ import flow
 import gen
 import mockca
 import vlib
+from ext import kclost
 from ext import keychange
 from ext import redirect
 
@@ -42,7 +43,11 @@ FINISH = dict(
          "every request position of an issuance, at the contact update and at the key roll-over; answers withheld at the "
          "authorization, order and download requests; external account bindings with MAC keys of 16 / 35 / 65 / 200 bytes, a "
          "key identifier that needs JSON escaping, the default algorithm, six account key types; CAs that append a query "
-         "string / a slash / a percent-escape to every URL they hand out.",
+         "string / a slash / a percent-escape to every URL they hand out. (v) py/ext/kclost.py: a key roll-over the CA "
+         "processes whose answer is lost (then the next attempt, a restart, another renewal; with a contact edit; several "
+         "key-type pairs), the same loss at newAccount and at the contact update, roll-overs genuinely refused, the account "
+         "query refused: judged by Spec.C04Lost.holds (only after an UNANSWERED keyChange, and only up to the first answered "
+         "request, a signature under the other key of that exchange is admitted; strict everywhere else).",
 )
 
 KT = ["rsa2048", "ecdsa_p256", "ecdsa_p384", "ecdsa_p521", "ed25519", "ed448", "rsa4096"]
@@ -206,6 +211,7 @@ def flow_scenarios(ctx):
     for alg in ("HS256", "HS384", "HS512"):
         scs.append({"name": "eab-" + alg, "steps": [{"key_type": "ecdsa_p256", "eab": alg}], "nonce_on_get": True, "rules": []})
     scs += more_scenarios(ctx.quick())
+    scs += kclost.scenarios(ctx.quick())
     return [dict(s, idx=i) for i, s in enumerate(scs)]
 
 
@@ -312,7 +318,7 @@ def run_flow(sc, root, helper):
                              # every third CA spells its host name in a way a URL library would rewrite
                              "url_host": "Localhost" if sc["idx"] % 3 == 2 else None})
     ca.start()
-    ok_all = True
+    ok_all, last_ok = True, False
     if sc.get("two_ca"):
         return run_two_ca(sc, d, ca, helper)
     try:
@@ -338,12 +344,13 @@ def run_flow(sc, root, helper):
             if os.path.exists(log):
                 os.remove(log)
             obs = flow.run_scenario(d, [cert], accounts=[acct], ca=ca, helper=helper, timeout=40,
-                                    n_postop=sc.get("n_postop", 1))
+                                    n_postop=step.get("n_postop", sc.get("n_postop", 1)))
             posts = [h for h in obs["hooks"] if h["name"] == "rec-post-operation"]
-            ok_all = ok_all and bool(posts) and flow.hook_args(posts[-1]).get("is_success") == "true"
+            last_ok = bool(posts) and flow.hook_args(posts[-1]).get("is_success") == "true"
+            ok_all = ok_all and (bool(step.get("may_fail")) or last_ok)
     finally:
         ca.stop()
-    return {"sc": sc, "log": list(ca.log), "ok": ok_all, "accounts": ca.accounts}
+    return {"sc": sc, "log": list(ca.log), "ok": ok_all, "accounts": ca.accounts, "dir": d, "last_ok": last_ok}
 
 
 def run_two_ca(sc, d, ca, helper):
@@ -391,7 +398,12 @@ def flows(ctx, helper, root):
         sc = r["sc"]
         recs = records_of(r["log"], r["accounts"] if (sc.get("forget") or sc.get("two_ca")) else None,
                           owner_two_ca if sc.get("two_ca") else None)
-        jin.append({"op": "c04_judge", "log": [{k: v for k, v in x.items() if k != "_src"} for x in recs]})
+        if sc.get("lost"):
+            # judged with the window an unanswered keyChange request opens (Spec.C04Lost)
+            r["_recs_x"] = kclost.records_x(helper, r["log"], recs)
+            jin.append(kclost.judge_input(r["_recs_x"]))
+        else:
+            jin.append({"op": "c04_judge", "log": [{k: v for k, v in x.items() if k != "_src"} for x in recs]})
         keep.append((r, recs))
         if "log2" in r:     # the second CA of a two-CA flow: a server of its own, a log of its own
             recs2 = records_of(r["log2"], r["accounts2"])
@@ -414,7 +426,9 @@ def flows(ctx, helper, root):
             ctx.count("flow:nonce-fault-fired=%s" % any(x["_src"].get("rule") for x in recs))
         if sc.get("forget"):
             ctx.count("flow:registrations-after-forgetting", max(0, sum(1 for x in recs if x["kind"] == "newAccount" and x["_src"].get("account_created")) - 1))
-        if not v["holds"]:
+        if sc.get("lost") and "_recs_x" in r:
+            kclost.judge_flow(ctx, helper, sc, r, recs, v, os.path.join(r["dir"], "accounts"))
+        elif not v["holds"]:
             bad = [i for i, ok in enumerate(v["req_ok"]) if not ok][0]
             x = recs[bad]
             src = x["_src"]
@@ -472,8 +486,19 @@ def replay(ctx):
         rsc = res["sc"]
         recs = records_of(res["log"], res["accounts"] if (rsc.get("forget") or rsc.get("two_ca")) else None,
                           owner_two_ca if rsc.get("two_ca") else None)
-        v = vlib.model([{"op": "c04_judge", "log": [{k: v2 for k, v2 in x.items() if k != "_src"} for x in recs]}])[0]
-        print(v)
+        if rsc.get("lost"):
+            res["_recs_x"] = kclost.records_x(helper, res["log"], recs)
+            v = vlib.model([kclost.judge_input(res["_recs_x"])])[0]
+            print(v)
+            kclost.judge_flow(ctx, helper, rsc, res, recs, v, os.path.join(res["dir"], "accounts"))
+            for desc, _ in ctx.violations[n0:]:
+                print("VIOLATION", desc[:1000])
+            for k, h in ctx.known_hits.items():
+                print("KNOWN-FINDING", k, h["n"])
+            v = dict(v, holds=len(ctx.violations) == n0)
+        else:
+            v = vlib.model([{"op": "c04_judge", "log": [{k: v2 for k, v2 in x.items() if k != "_src"} for x in recs]}])[0]
+            print(v)
         keychange.extend(ctx, helper, vlib.model, [res])
         for what, detail, _ in ctx.broken:
             print(what, detail[:1000])
